@@ -133,6 +133,11 @@ func runHistoryGo(kp *KeyPair, nu0 *big.Int, time0 int64, steps []any) string {
 			for _, e := range h.events[lo : hi+1] {
 				evs = append(evs, &revocation.Event{Index: e.Index, E: new(big.Int).Set(e.E), ParentHash: append(revocation.Hash{}, e.ParentHash...)})
 			}
+			if st["tamper"] != nil && len(evs) > 0 {
+				// a chunk that connects by its indices but not by its hashes (one value altered)
+				k := st.int("tamper") % len(evs)
+				evs[k].E = new(big.Int).Add(evs[k].E, bi(2))
+			}
 			list := revocation.NewEventList(evs...)
 			switch st.str("wire") {
 			case "json-product":
@@ -277,6 +282,13 @@ func (b *histBuilder) prepend(u string, lo, hi int, wire string) {
 // badprepend: events lo..hi that do not connect to update u: refused, u unchanged
 func (b *histBuilder) badprepend(u string, lo, hi int, wire string) {
 	b.steps = append(b.steps, map[string]any{"t": "prepend", "u": u, "from": lo, "to": hi, "wire": wire})
+	b.expect = append(b.expect, "prepend-err")
+}
+
+// tamperedprepend: events lo..hi that connect to update u by their indices, one value altered:
+// refused (the hashes do not link), u unchanged - also the product it may have cached
+func (b *histBuilder) tamperedprepend(u string, lo, hi, k int, wire string) {
+	b.steps = append(b.steps, map[string]any{"t": "prepend", "u": u, "from": lo, "to": hi, "wire": wire, "tamper": k})
 	b.expect = append(b.expect, "prepend-err")
 }
 
@@ -541,6 +553,14 @@ func genC09(g *Rng, tier string, emit func(Op)) {
 							// first a chunk that does not connect (a gap before the update's first event): it
 							// is refused and leaves the update as it was
 							b.badprepend(id, 1, from-2, wire)
+						}
+						if hi == from-1 {
+							// the update is used once (its product gets cached), then a chunk with an altered
+							// value is offered and refused, then the genuine chunk
+							tmp := fmt.Sprintf("t%d_pre", k)
+							b.clone(fmt.Sprintf("w%d", from-1), tmp)
+							b.apply(tmp, id)
+							b.tamperedprepend(id, lo, hi, k, wire)
 						}
 						b.prepend(id, lo, hi, wire)
 						for _, wi := range []int{lo - 1, lo, n} {
